@@ -23,21 +23,50 @@ type vLoader struct {
 	mu    sync.Mutex
 	gets  []string
 	hits  []string
+	// mark: this loader has a name space of its own (like a loader with its own root directory): Abs answers with
+	// names carrying the loader's mark and Get knows only such names. Names are recorded without the mark.
+	mark    bool
+	foreign []string // names Get was asked for that this loader's Abs did not produce
+}
+
+func vUnmark(p string) string {
+	if i := strings.Index(p, "#L"); i >= 0 {
+		return p[:i]
+	}
+	return p
 }
 
 func (l *vLoader) Abs(base, name string) string {
-	if strings.HasPrefix(name, "/") {
-		return path.Clean(name)
+	base, name = vUnmark(base), vUnmark(name)
+	var r string
+	switch {
+	case strings.HasPrefix(name, "/"):
+		r = path.Clean(name)
+	case base == "":
+		r = path.Clean("/" + name)
+	default:
+		r = path.Join(path.Dir(base), name)
 	}
-	if base == "" {
-		return path.Clean("/" + name)
+	if l.mark {
+		r += fmt.Sprintf("#L%d", l.id)
 	}
-	return path.Join(path.Dir(base), name)
+	return r
 }
 
 func (l *vLoader) Get(p string) (io.Reader, error) {
 	l.mu.Lock()
 	defer l.mu.Unlock()
+	if l.mark {
+		suffix := fmt.Sprintf("#L%d", l.id)
+		if !strings.HasSuffix(p, suffix) {
+			l.foreign = append(l.foreign, p)
+			return nil, &os.PathError{Op: "open", Path: p, Err: os.ErrNotExist}
+		}
+		p = strings.TrimSuffix(p, suffix)
+	} else if strings.Contains(p, "#L") {
+		l.foreign = append(l.foreign, p)
+		return nil, &os.PathError{Op: "open", Path: p, Err: os.ErrNotExist}
+	}
 	l.gets = append(l.gets, p)
 	s, ok := l.files[p]
 	if !ok {
@@ -293,6 +322,12 @@ func c11Gen(r *Rng) (*c11World, string) {
 	for i := 0; i < nl; i++ {
 		w.loaders = append(w.loaders, &vLoader{id: i, files: map[string]string{}})
 	}
+	if nl > 1 && r.Bool() {
+		// loaders with name spaces of their own (every loader but, sometimes, the first)
+		for i, l := range w.loaders {
+			l.mark = i > 0 || r.Bool()
+		}
+	}
 	abs := func(rel string) string { return path.Join(c11Root, rel) }
 	// plain content files, ordered: a file refers only to later ones (acyclic)
 	names := []string{"m.tpl", "x1.tpl", "a/y1.tpl", "a/b/z1.tpl", "c/w1.tpl", "x2.tpl", "a/y2.tpl", "a/b/z2.tpl", "c/w2.tpl"}
@@ -503,7 +538,16 @@ func c11Run(c *C) {
 				srcs[fmt.Sprintf("loader%d:%s", i, strings.TrimPrefix(n, c11Root))] = s
 			}
 		}
-		return D{"virtual_root": c11Root, "entry": strings.TrimPrefix(entry, c11Root), "loaders": srcs}
+		d := D{"virtual_root": c11Root, "entry": strings.TrimPrefix(entry, c11Root), "loaders": srcs}
+		for i, l := range w.loaders {
+			if l.mark {
+				d[fmt.Sprintf("loader%d_namespace", i)] = fmt.Sprintf("its Abs appends #L%d, its Get knows only such names", i)
+			}
+			if len(l.foreign) > 0 {
+				d[fmt.Sprintf("loader%d_asked_for_names_it_did_not_produce", i)] = l.foreign
+			}
+		}
+		return d
 	}
 	var out string
 	var xerr error
